@@ -181,4 +181,10 @@ func init() {
 		NotDecided:  "protobuf-go's own unescaper (quick tier); strconv/utf8 are trusted",
 		Rules:       []func(*World){rpC26},
 	})
+	register(&Property{
+		ID:          "C11",
+		Explanation: "RR: productions are read from parser/proto.y and the compiled actions from the `switch protont` of parser/proto.y.go; symbol counts are cross-checked between both files; for every production without the `error` token the compiled action references all of its right-hand-side values protoDollar[1..K]. RR2: every exported ast.New*Node constructor of a composite node places each Node-typed parameter (or each element of a slice parameter) among the node's children. Together: every token the lexer hands to the parser is reachable by ast.Walk.",
+		NotDecided:  "that the lexer's items tile the input (whitespace/comment spans are arithmetic), BOM handling, correctness of leading-whitespace offsets, order of children",
+		Rules:       []func(*World){rrGrammar, rr2Constructors},
+	})
 }
